@@ -87,6 +87,19 @@ def check(rec):
             # a plain "label.tld": the record under that key must be what is returned
             if ln.count(".") == 1 and ln in names and body["n"] != names[ln]:
                 out.append(V("name-query-wrong", f"Name({v['name']}) returns a record other than the stored one (owner {body['n'].get('value')} / stored {names[ln].get('value')})", op))
+        if k == "resolve":
+            names = dict(st["names"])
+            canon = dict(st.get("canon") or [])
+            raw, ln = v["name"], v["lname"]
+            if raw in canon:
+                want = canon[raw]
+            elif len(raw) > 4 and raw[-3:] in ("ibc", "jkl") and (ln[:-4] + "." + ln[-3:]) in names:
+                want = canon.get(names[ln[:-4] + "." + ln[-3:]]["value"])
+            else:
+                want = None
+            got = None if err else body["a"]
+            if want != got:
+                out.append(V("resolve-wrong", f"Resolve({raw!r}) answers {got}, the name record registered under exactly that name says {want}", op))
     elif sub == "notif":
         if k == "byAddress" and not err and v.get("page") is None:
             to = v["to"]
